@@ -212,19 +212,20 @@ func genPauseDown(c *ctx) {
 			add("random", 300, evs...)
 		}
 	}
-	// three runs of every schedule at once; the model has to explain one of them (see pausemodel)
+	// three runs of every schedule; the model has to explain one of them (see pausemodel)
 	const attempts = 3
 	alts := make([][]*c18bScn, len(scns))
-	var all []*c18bScn
-	for i, s := range scns {
-		all = append(all, s)
-		for a := 1; a < attempts; a++ {
+	parallelDo(len(scns), len(scns), func(i int) { c18bRun(scns[i]) })
+	for a := 1; a < attempts; a++ { // one wave after the other: three times as many goroutines at once would disturb each other
+		wave := make([]*c18bScn, len(scns))
+		for i, s := range scns {
 			cp := *s
+			cp.log = nil
+			wave[i] = &cp
 			alts[i] = append(alts[i], &cp)
-			all = append(all, &cp)
 		}
+		parallelDo(len(wave), len(wave), func(i int) { c18bRun(wave[i]) })
 	}
-	parallelDo(len(all), len(all), func(i int) { c18bRun(all[i]) })
 	for si, s := range scns {
 		c.count("family:" + s.family)
 		c.count("outcome:" + s.outcome)
@@ -383,7 +384,9 @@ func genPauseProbe(c *ctx) {
 			if probing && (ch == 'G' || ch == 'N') {
 				pausedInProbe = true
 			}
-			if probing && j < len(r.rel) && !r.rel[j] && r.class == "ok" {
+			// judged by what the goroutine itself reported: the probing phase was on before this acknowledgement
+			wasProbing := j == 0 || (j-1 < len(r.ini) && r.ini[j-1])
+			if wasProbing && j < len(r.rel) && !r.rel[j] && r.class == "ok" {
 				c.violate("probe:not-released", "an acknowledgement in the buffer-size probing phase did not release the encoder (bufInitDone not called): the sender would wait for ever",
 					fmt.Sprintf("acks %q (g grows, n does not, capital = marked pause): ack #%d released=%v", sq, j, r.rel))
 			}
